@@ -217,7 +217,7 @@ func path(v ssa.Value, d int) string {
 		}
 		return "φ" + x.Name()
 	case *ssa.MakeSlice:
-		return fmt.Sprintf("make@%d", x.Pos())
+		return "make(" + path(x.Len, d+1) + ")"
 	case *ssa.Function:
 		return x.Name()
 	case *ssa.MakeClosure:
